@@ -72,7 +72,7 @@ def orders(case):
   sizes = case['sizes']
   backend = case.get('backend', 'jit')
   alg, c_ref, s_ref, h = algorithm('sgd', 'sgd', 0.125, 0.5, (2, 1, None, False, 0), backend)
-  pop = algos.population(sizes, case.get('seed', 0))
+  pop = algos.population(sizes, case.get('seed', 0), typed_keys=bool(case.get('typed_keys')))
   p0 = algos.nparams(algos.P0)
   perms = [case['order']] if 'order' in case else list(itertools.permutations(range(len(sizes))))
   base = None
@@ -159,6 +159,11 @@ SUBS = {'orders': orders, 'batching': batching, 'histories': histories}
 TIMEOUTS = {'orders': 600, 'batching': 120, 'histories': 2400}
 
 
+# sub-spaces re-executed under other interpreter configurations (mc.core.CONFIGS): {configuration: {sub-space: stride}}
+# quick tier: every stride-th planned case, thorough tier: all planned cases
+CONFIG_PASSES = {'x64': {'orders': 6, 'batching': 8}, 'rbg': {'orders': 12}}
+
+
 def plan(ctx):
   th = ctx.tier == 'thorough'
   ctx.rule = ('A: every population of 1..3 clients with sizes in {0,1,2,3,5} x every order; B: populations {(3),(0,5),(2,0,3)} x '
@@ -190,4 +195,7 @@ def plan(ctx):
   dpops = [list(p) for n in (1, 2) for p in itertools.product(SIZES, repeat=n)]
   if not th:
     dpops = [p for p in dpops if len(p) == 1 or 0 in p or p in ([2, 3], [5, 1], [3, 3])]
-  ctx.pmap('orders', [{'sizes': p, 'seed': s, 'backend': b} for b in backs for p in dpops], chunk=8)
+  ctx.pmap('orders', [{'sizes': p, 'seed': s, 'backend': b} for b in backs for p in dpops] +
+           # new-style typed PRNG keys (jax.random.key) with the same key data: same reference, every backend
+           [{'sizes': p, 'seed': s, 'backend': b, 'typed_keys': True} for b in ['jit', 'pmap2'] + (['debug', 'pmap3'] if th else [])
+            for p in ([2, 3], [0, 5], [3, 0, 1])], chunk=8)
